@@ -8,3 +8,8 @@ package adapter
 // A valid adapter genesis (C17) is any non-nil one: the only parameter is an unsigned limit.
 //@ func (g *GenesisState) Validate() (err)
 //@   ensures[C17] (err == nil) == (g != nil)
+
+// Default parameters (C18): the default limit is zero, so that with default parameters only an empty
+// passthrough payload is accepted.
+//@ func DefaultGenesisState() (g)
+//@   ensures[C18,C17] g != nil && g.Params.MaxPassthroughPayloadSize == 0
